@@ -418,4 +418,16 @@ example : binSA Ex2.sb .and (slvRows Ex2.brows) (.ref 3) = .ok (.rows [.slv ⟨2
     np2 (BinOp.fnBool .and) (denseRowsB Ex2.brows) [(⟨2, [1]⟩ : SLV).toDense] = .ok [[0, 0], [0, 1]] := by
   refine ⟨by decide +kernel, by decide +kernel⟩
 
-end ThermoVerif.Props.C09
+/-- **aliasing**: `A -= A[0:1]` — the operand is a one-row array over row 0 of the target itself (object 3 = `sa [0]`).
+`dense_hom_isa_sa_onerow` does not ask the operand row to be outside the target, so it applies: every row sees the ORIGINAL
+row 0 (row 1 becomes `[3, -2] − [1, 0]`, although row 0 has been emptied by then), as NumPy evaluates `A[0:1]` first. -/
+example : InplaceAgrees
+    [Obj.sv ⟨2, [(0, 1)], false⟩, Obj.sv ⟨2, [(0, 3), (1, -2)], false⟩, Obj.sa [0, 1], Obj.sa [0]]
+    [Obj.sv ⟨2, [], false⟩, Obj.sv ⟨2, [(0, 2), (1, -2)], false⟩, Obj.sa [0, 1], Obj.sa [0]]
+    [0, 1] [⟨2, [(0, 1)], false⟩, ⟨2, [(0, 3), (1, -2)], false⟩] (BinOp.fn .sub) (⟨2, [(0, 1)], false⟩ : SV).toDense :=
+  dense_hom_isa_sa_onerow _ _ .sub .sub rfl [0, 1] _ 3 0 ⟨2, [(0, 1)], false⟩
+    (by decide) (by decide +kernel) (by decide +kernel) (by decide +kernel) (by decide +kernel) (by decide +kernel)
+    (by intro a ha; simp only [List.mem_cons, List.not_mem_nil, or_false] at ha; rcases ha with rfl | rfl <;> exact Or.inl rfl)
+    (by decide +kernel)
+
+example : np2i (BinOp.fn .sub) [[1, 0], [3, -2]] [[1, 0]] = .ok [[0, 0], [2, -2]] := by decide +kernel
